@@ -84,7 +84,7 @@ def hidden_or_nonserviceable(p):
     return ref_hidden(p['uh']['flags']) or not ref_serviceable(p['uh']['sev'], p['uh']['flags'])
 
 
-@PROP.given('lookups', lambda tier: case_strategy(tier), quick=800, thorough=16000, shards_quick=8)
+@PROP.given('lookups', lambda tier: case_strategy(tier), quick=1600, thorough=16000, shards_quick=8)
 def lookups(case, note):
     pels, q = case['pels'], case['query']
     names = [fname(i, p['ph']['eid']) for i, p in enumerate(pels)]
